@@ -30,7 +30,7 @@ pub fn positions(n: usize, dense_limit: usize) -> Vec<usize> {
             v.push(n / f);
             v.push(n - n / f);
         }
-        v.extend([n - 1, n, n + 1]);
+        v.extend([n.saturating_sub(1), n, n + 1]);
     }
     v.push(UMAX - 1);
     v.push(UMAX);
@@ -52,7 +52,7 @@ pub fn occ_indices(count: usize, dense_limit: usize) -> Vec<usize> {
             v.extend([j - 1, j, j + 1]);
             j += if count > 70_000 { 8192 } else { 1024 };
         }
-        v.extend([count / 2, count / 3, count - 2, count - 1, count, count + 1]);
+        v.extend([count / 2, count / 3, count.saturating_sub(2), count.saturating_sub(1), count, count + 1]);
     }
     v.push(UMAX - 1);
     v.push(UMAX);
